@@ -419,6 +419,13 @@ func gen(rng *rand.Rand) Profile {
 		p.From = float64(rng.Intn(50))
 		p.To = p.From + float64(rng.Intn(100))
 		p.Step = int64(1 + rng.Intn(30))
+		if rng.Intn(2) == 0 {
+			// fractional bounds (from/to are floats in the config); dyadic fractions keep the
+			// level sums exact, so "level ≤ to" is never a rounding question
+			p.From = float64(rng.Intn(160)) / 8
+			p.To = p.From + float64(rng.Intn(400))/8
+			p.Step = int64(1 + rng.Intn(12))
+		}
 		p.Duration = genDur(rng) % 5e9
 		if p.Duration < 1e6 {
 			p.Duration = 1e6
@@ -450,6 +457,10 @@ var seeds = []Profile{
 	{Kind: "step", From: 0, To: 3, Step: 1, Duration: 1e9},
 	{Kind: "step", From: 5, To: 5, Step: 1, Duration: 1e9},
 	{Kind: "step", From: 5, To: 6, Step: 3, Duration: 2e9},
+	{Kind: "step", From: 0.5, To: 2, Step: 1, Duration: 2e9},
+	{Kind: "step", From: 1, To: 1.5, Step: 1, Duration: 1e9},
+	{Kind: "step", From: 10, To: 24.5, Step: 5, Duration: 5e8},
+	{Kind: "step", From: 0.25, To: 3.25, Step: 1, Duration: 1e9},
 	{Kind: "once", Times: 1},
 	{Kind: "once", Times: 100},
 }
